@@ -236,3 +236,20 @@ def pool_knob(rng, backend, p=0.5):
     if backend != "sql" or rng.random() >= p:
         return {}
     return {"num_concurrent_reqs": rng.choice([1, 2, 3, 10]), "num_concurrent_adds": rng.choice([1, 2, 4])}
+
+
+def crowd(rng, h, n=None, same_address=True, matching_kind=1):
+    """many short-lived or idle connections in one process lifetime (long-run effects: identifiers wrapping,
+    periodic sweeps, tables filling up): n connections, most behind one address, each opening ONE subscription
+    under one of a few ids (so ids repeat across connections), then one publisher.  Returns client specs."""
+    import json
+    n = n or rng.choice([70, 130, 140, 260, 300])
+    clients = []
+    for i in range(n):
+        sid = rng.choice(["s", "s", "x", "feed"])
+        script = [["send", json.dumps(["REQ", sid, {"kinds": [matching_kind]}])]]
+        spec = {"script": script}
+        if same_address and rng.random() < 0.9:
+            spec["addr"] = "10.9.9.9"
+        clients.append(spec)
+    return clients
